@@ -600,6 +600,12 @@ impl FromStr for StandardCommunity {
             let tagv = u16::from_str(t).map_err(|_e| "cant parse Tag")?;
             Ok(StandardCommunity::new(asn, Tag(tagv)))
         } else if let Some(hex) = s.strip_prefix("0x") {
+            // Four bytes are at most eight hex digits. Anything longer is
+            // the hex form of an Extended or IPv6 Extended Community, even
+            // if the leading digits are zeroes.
+            if hex.len() > 8 {
+                return Err("hex value too long for StandardCommunity".into());
+            }
             if let Ok(hex) = u32::from_str_radix(hex, 16) {
                 Ok(StandardCommunity(hex.to_be_bytes()))
             } else {
@@ -1074,6 +1080,12 @@ impl FromStr for ExtendedCommunity {
             _ => { Err(ParseError("unknown tag")) }
             }
         } else if let Some(hex) = s.strip_prefix("0x") {
+            // Eight bytes are at most sixteen hex digits. Anything longer
+            // is the hex form of an IPv6 Extended Community, even if the
+            // leading digits are zeroes.
+            if hex.len() > 16 {
+                return Err("hex value too long for ExtendedCommunity".into());
+            }
             if let Ok(hex) = u64::from_str_radix(hex, 16) {
                 Ok(ExtendedCommunity(hex.to_be_bytes()))
             } else {
